@@ -17,6 +17,7 @@ from __future__ import annotations
 
 import copy
 import json
+import os
 import re
 from urllib.parse import unquote_plus
 
@@ -1898,12 +1899,343 @@ def stage_query_on_wire(chk, n_natural, n_biased):
 
 
 # ----------------------------------------------------------------------------------------
+# Part F: the validator behind the guard of negative_schema reads the declared schema as Draft 4 (BOOLEAN exclusive bounds)
+# ----------------------------------------------------------------------------------------
+EXCL = [None, True, False]
+
+
+def gen_bool_exclusive_schema(rng, has_min, has_max, exmin, exmax, wellformed=False):
+    """A numeric schema in the Draft 4 / OpenAPI 2.0-3.0 form: minimum / maximum with boolean exclusive flags, keys in random order."""
+    entries = []
+    t = rng.choice(["number", "number", "integer"] if wellformed else ["number", "number", "integer", "integer", None, ["number", "null"]])
+    if t is not None:
+        entries.append(("type", t))
+    lo = rng.choice([-5, -1, 0, 0, 0, 1, 2, 10])
+    hi = rng.choice([0, 1, 2, 5, 10, 50, 100, 100])
+    if wellformed and has_min and has_max and hi <= lo + 1:
+        hi = lo + rng.choice([3, 10, 100])
+    if has_min:
+        entries.append(("minimum", lo))
+    if has_max:
+        entries.append(("maximum", hi))
+    if exmin is not None:
+        entries.append(("exclusiveMinimum", exmin))
+    if exmax is not None:
+        entries.append(("exclusiveMaximum", exmax))
+    if rng.random() < 0.2:
+        entries.append((rng.choice(["description", "title"]), "d"))
+    rng.shuffle(entries)
+    return dict(entries)
+
+
+def guard_values(schema):
+    vals = [-1, 0, 1, 2, None, True, False, "", "a", [], {}, 10**20]
+    for k in ("minimum", "maximum"):
+        if k in schema:
+            vals += [schema[k] - 1, schema[k], schema[k] + 1]
+    out = []
+    for v in vals:
+        if not any(type(v) is type(w) and v == w for w in out):
+            out.append(v)
+    return out
+
+
+def capture_guard(schema, location, tag):
+    """The filter_values closure negative_schema hands to from_schema(mutated).filter(...), captured by a stub from_schema."""
+    import schemathesis.specs.openapi.negative as N
+    from hypothesis import HealthCheck, Phase, given, seed, settings
+    from hypothesis import strategies as st
+    from hypothesis.errors import Unsatisfiable
+
+    from schemathesis.generation import GenerationConfig
+
+    captured = []
+
+    class Stub:
+        def filter(self, f):
+            captured.append(f)
+            return st.just(None)
+
+    orig = N.from_schema
+    N.from_schema = lambda s, **kw: Stub()
+    try:
+        strategy = N.negative_schema(copy.deepcopy(schema), tag, location, "application/json" if location == "body" else None, GenerationConfig(), custom_formats={})
+
+        @seed(0)
+        @settings(max_examples=1, database=None, derandomize=False, deadline=None, suppress_health_check=list(HealthCheck), phases=[Phase.generate])
+        @given(strategy)
+        def once(_):
+            pass
+
+        try:
+            once()
+        except Unsatisfiable:
+            pass
+        except Exception:  # noqa: BLE001  the mutation code refuses the schema (a flag without its bound): only get_validator is tied
+            pass
+    finally:
+        N.from_schema = orig
+    return captured[0] if captured else None
+
+
+def stage_guard_validator(chk, rounds):
+    """Correspondence: the real guard (get_validator and the filter inside negative_schema) against Model_C02.guard_is_valid Draft4 /
+    location_guard_keeps Draft4, and an independent Draft4Validator on the declared schema against Model_C02.declared_valid, on
+    numeric schemas with every combination of minimum / maximum / boolean exclusives, values around the bounds and around 0 / 1."""
+    import jsonschema
+
+    from schemathesis.specs.openapi.negative import CacheKey, get_validator, is_non_empty_query
+
+    rng = chk.rng
+    schemas = [
+        {"type": "number", "maximum": 100, "exclusiveMaximum": False},
+        {"type": "number", "minimum": 0, "exclusiveMinimum": False, "maximum": 100, "exclusiveMaximum": False},
+        {"type": "number", "minimum": 0, "exclusiveMinimum": True, "maximum": 10},
+        {"type": "integer", "minimum": 0, "exclusiveMinimum": False, "maximum": 50, "exclusiveMaximum": False},
+        {"type": "integer", "minimum": 1, "exclusiveMinimum": True},
+        {"exclusiveMaximum": True, "maximum": 5},
+        {"type": "integer", "exclusiveMinimum": True},
+    ]
+    for _ in range(rounds):
+        for has_min in (False, True):
+            for has_max in (False, True):
+                for exmin in EXCL:
+                    for exmax in EXCL:
+                        schemas.append(gen_bool_exclusive_schema(rng, has_min, has_max, exmin, exmax))
+    nonce = f"verif-guard-{os.getpid()}-{rng.getrandbits(32)}"
+    cases = []
+    exprs = []
+    for i, s in enumerate(schemas):
+        vals = guard_values(s)
+        required = rng.random() < 0.5
+        queries = [{"limit": v} for v in vals if v is not None and not isinstance(v, (list, dict))] + [{}, {"zz": 1}, {"limit": 1, "zz": 1}]
+        cases.append((s, vals, required, queries))
+        req = clist([cstr("limit")] if required else [], "str")
+        exprs.append(
+            f"(let s := {c_jdict(s)} in let props := [({cstr('limit')}, s)] in (num_fragment s, "
+            f"map (fun v => (guard_is_valid Draft4 s v, declared_valid s v, guard_is_valid Draft7 s v)) {clist([cjson(v) for v in vals], 'json')}, "
+            f"map (fun q => (location_guard_keeps Draft4 props {req} q, location_is_valid declared_valid props {req} q)) "
+            f"{clist([c_jdict(q) for q in queries], '(list (str * json))')}))"
+        )
+    model = core.coq_eval(IMPORTS, exprs)
+    cap = {"disagree": 0, "fail": 0}
+
+    def disagree(*a):  # a different validator class disagrees on hundreds of inputs: the first ones are enough
+        cap["disagree"] += 1
+        if cap["disagree"] <= 12:
+            chk.disagree(*a)
+
+    def fail(*a):
+        cap["fail"] += 1
+        if cap["fail"] <= 12:
+            chk.fail(*a)
+
+    stats = {"schemas": len(schemas), "values": 0, "queries": 0, "draft_sensitive_values": 0, "kept_by_guard": 0, "filters_captured": 0, "disagreements": 0}
+    for i, ((s, vals, required, queries), (m_frag, m_vals, m_qs)) in enumerate(zip(cases, model)):
+        if m_frag is not True:
+            disagree("generated schema outside Model_C02.num_fragment", {"guard_schema": s}, "in the fragment", m_frag)
+            continue
+        reference = jsonschema.Draft4Validator(copy.deepcopy(s))
+        validator = get_validator(CacheKey(f"{nonce}-{i}", "body", copy.deepcopy(s)))
+        body_filter = capture_guard(s, "body", f"{nonce}-b{i}")
+        lschema = {"type": "object", "properties": {"limit": copy.deepcopy(s)}, "required": ["limit"] if required else [], "additionalProperties": False}
+        if not required:
+            del lschema["required"]
+        lreference = jsonschema.Draft4Validator(copy.deepcopy(lschema))
+        query_filter = capture_guard(lschema, "query", f"{nonce}-q{i}")
+        stats["filters_captured"] += (body_filter is not None) + (query_filter is not None)
+        for v, (m_guard, m_decl, m_d7) in zip(vals + [0.5, 1.0, 99.5], list(m_vals) + [(None, None, None)] * 3):
+            inp = {"guard_schema": s, "value": v}
+            stats["values"] += 1
+            chk.seen({"guard": [list(s.items()), repr(v)]}, m_guard is not None and m_guard != m_d7)
+            stats["draft_sensitive_values"] += m_guard is not None and m_guard != m_d7
+            i_guard = bool(validator.is_valid(v))
+            i_ref = bool(reference.is_valid(v))
+            if m_guard is not None and i_guard != m_guard:
+                disagree("get_validator(...).is_valid vs Model_C02.guard_is_valid Draft4", inp, i_guard, m_guard)
+                stats["disagreements"] += 1
+            if m_decl is not None and i_ref != m_decl:
+                disagree("independent jsonschema.Draft4Validator on the declared schema vs Model_C02.declared_valid", inp, i_ref, m_decl)
+                stats["disagreements"] += 1
+            kept = [not i_guard]
+            if body_filter is not None:
+                i_keep = bool(body_filter(v))
+                kept.append(i_keep)
+                if m_guard is not None and i_keep != (not m_guard):
+                    disagree("filter of negative_schema (location body) vs Model_C02.guard_keeps Draft4", inp, i_keep, not m_guard)
+                    stats["disagreements"] += 1
+            stats["kept_by_guard"] += any(kept)
+            if any(kept) and i_ref:
+                # what C02_guard_kept_value_invalid excludes: the guard lets a value through that is valid for the declared schema
+                fail("the guard of negative_schema keeps (emits as negative data) a value that is VALID for the declared schema under Draft 4", inp,
+                         {"get_validator.is_valid": i_guard, "filter_values": kept[1:] or None, "independent Draft4Validator.is_valid": i_ref,
+                          "validator class": type(validator).__name__})
+        for q, (m_keep, m_lvalid) in zip(queries, m_qs):
+            inp = {"guard_location_schema": lschema, "query": q}
+            stats["queries"] += 1
+            i_lref = bool(lreference.is_valid(q))
+            if i_lref != m_lvalid:
+                disagree("independent Draft4Validator on the declared location schema vs Model_C02.location_is_valid declared_valid", inp, i_lref, m_lvalid)
+                stats["disagreements"] += 1
+            if query_filter is None:
+                continue
+            i_keep = bool(query_filter(copy.deepcopy(q)))
+            expected = bool(is_non_empty_query(copy.deepcopy(q))) and m_keep
+            if i_keep != expected:
+                disagree("filter of negative_schema (location query) vs is_non_empty_query and Model_C02.location_guard_keeps Draft4", inp, i_keep, expected)
+                stats["disagreements"] += 1
+            if i_keep and i_lref:
+                fail("the guard of negative_schema keeps (emits as negative data) a query that is VALID for the declared location schema under Draft 4", inp,
+                         {"filter_values": True, "independent Draft4Validator.is_valid": True})
+    stats["valid_values_kept_by_guard"] = cap["fail"]
+    return stats
+
+
+GUARD_OP_KINDS = ["body", "body_object", "query_required", "query_optional", "body_and_query", "v2_body", "v2_query"]
+
+
+def gen_guard_operation(rng, kind):
+    """An operation whose body / query is a numeric schema with boolean exclusive bounds (well-formed: a flag only next to its bound)."""
+    def num():
+        has_min, has_max = rng.choice([(True, True), (True, True), (True, False), (False, True)])
+        exmin = rng.choice([True, False, False, None]) if has_min else None
+        exmax = rng.choice([True, False, False, None]) if has_max else None
+        if exmin is None and exmax is None:
+            if has_max:
+                exmax = False
+            else:
+                exmin = rng.choice([True, False])
+        return gen_bool_exclusive_schema(rng, has_min, has_max, exmin, exmax, wellformed=True)
+
+    op = {"kind": kind, "body": None, "query": None, "required": True, "version": 2 if kind.startswith("v2") else 3}
+    if kind in ("body", "v2_body", "body_and_query"):
+        op["body"] = num()
+    if kind == "body_object":
+        op["body"] = {"type": "object", "properties": {"percent": num()}, "required": ["percent"], "additionalProperties": False}
+    if kind in ("query_required", "query_optional", "body_and_query", "v2_query"):
+        op["query"] = num()
+        op["required"] = kind != "query_optional"
+    return op
+
+
+def guard_document(op):
+    if op["version"] == 2:
+        params = []
+        if op["query"] is not None:
+            params.append({"name": "limit", "in": "query", "required": op["required"], **copy.deepcopy(op["query"])})
+        if op["body"] is not None:
+            params.append({"name": "payload", "in": "body", "required": True, "schema": copy.deepcopy(op["body"])})
+        return {"swagger": "2.0", "info": {"title": "t", "version": "1"}, "consumes": ["application/json"],
+                "paths": {"/x": {"post": {"parameters": params, "responses": {"200": {"description": "ok"}}}}}}
+    operation = {"responses": {"200": {"description": "ok"}}}
+    if op["query"] is not None:
+        operation["parameters"] = [{"name": "limit", "in": "query", "required": op["required"], "schema": copy.deepcopy(op["query"])}]
+    if op["body"] is not None:
+        operation["requestBody"] = {"required": True, "content": {"application/json": {"schema": copy.deepcopy(op["body"])}}}
+    return {"openapi": "3.0.2", "info": {"title": "t", "version": "1"}, "paths": {"/x": {"post": operation}}}
+
+
+def run_guard_operation(op, modes, seed_value, n):
+    import schemathesis
+    from hypothesis import HealthCheck, Phase, given, seed, settings
+    from hypothesis.errors import Unsatisfiable
+
+    from schemathesis.generation import GenerationConfig, GenerationMode
+
+    GM = {"Pos": GenerationMode.POSITIVE, "Neg": GenerationMode.NEGATIVE}
+    operation = schemathesis.openapi.from_dict(guard_document(op))["/x"]["POST"]
+    strategy = operation.as_strategy(generation_mode=GM["Neg"], generation_config=GenerationConfig(modes=[GM[m] for m in modes]))
+    out = []
+
+    @seed(seed_value)
+    @settings(max_examples=n, database=None, derandomize=False, deadline=None, suppress_health_check=list(HealthCheck), phases=[Phase.generate])
+    @given(strategy)
+    def collect(case):
+        out.append(case)
+
+    try:
+        collect()
+    except Unsatisfiable:
+        pass
+    return out
+
+
+def oracle_guard_case(chk, op, modes, case, stats):
+    """Every part of the case against an independent Draft4Validator built from the schema as declared in the document."""
+    import jsonschema
+
+    from schemathesis.core import NOT_SET
+
+    comps = {k.value: v.mode.name for k, v in case.meta.components.items()}
+    declared = {}
+    if op["body"] is not None:
+        declared["body"] = op["body"]
+    if op["query"] is not None:
+        declared["query"] = {"type": "object", "properties": {"limit": op["query"]}, "additionalProperties": False, **({"required": ["limit"]} if op["required"] else {})}
+    stats["cases"] += 1
+    base = {"guard_op": op, "modes": modes, "labels": comps}
+    if case.meta.generation.mode.name != "NEGATIVE":
+        chk.fail("case from the negative strategy is not labelled negative", base, case.meta.generation.mode.name)
+        return
+    present_negative = 0
+    for part, schema in declared.items():
+        value = getattr(case, part)
+        if part not in comps or value is NOT_SET or (part != "body" and value is None):
+            continue
+        printable = json.loads(json.dumps(value, default=repr))
+        chk.seen({"guard_case": [op, part, printable]}, True)
+        valid = jsonschema.Draft4Validator(copy.deepcopy(schema)).is_valid(value)
+        inp = dict(base, part=part, value=printable)
+        if comps[part] == "NEGATIVE":
+            present_negative += 1
+            if valid:
+                stats["negative_but_valid"] += 1
+                chk.fail(f"case labelled negative: its {part}, labelled negative, is VALID for the declared schema (independent Draft 4 validator, boolean exclusive bounds)", inp,
+                         {"declared": schema, part: repr(value)[:200], "case.meta.generation.mode": "NEGATIVE"})
+            else:
+                stats["negative_invalid"] += 1
+        elif not valid:
+            stats["positive_but_invalid"] += 1
+            chk.fail(f"{part} labelled positive is INVALID for the declared schema (independent Draft 4 validator, boolean exclusive bounds)", inp,
+                     {"declared": schema, part: repr(value)[:200]})
+    if not present_negative:
+        chk.fail("negative case without any present part labelled negative", base, repr(case)[:300])
+
+
+def stage_guard_draws(chk, n_ops, n_examples):
+    rng = chk.rng
+    stats = {"operations": 0, "cases": 0, "negative_invalid": 0, "negative_but_valid": 0, "positive_but_invalid": 0}
+    ops = [
+        {"kind": "body", "version": 3, "query": None, "required": True, "body": {"type": "number", "minimum": 0, "exclusiveMinimum": False, "maximum": 100, "exclusiveMaximum": False}},
+        {"kind": "query_required", "version": 3, "body": None, "required": True, "query": {"type": "integer", "minimum": 0, "exclusiveMinimum": False, "maximum": 50, "exclusiveMaximum": False}},
+    ]
+    while len(ops) < n_ops:
+        ops.append(gen_guard_operation(rng, GUARD_OP_KINDS[len(ops) % len(GUARD_OP_KINDS)]))
+    for i, op in enumerate(ops):
+        modes = ["Neg"] if i % 2 == 0 else ["Pos", "Neg"]
+        stats["operations"] += 1
+        for case in run_guard_operation(op, modes, rng.getrandbits(32), n_examples):
+            oracle_guard_case(chk, op, modes, case, stats)
+    return stats
+
+
+def replay_guard_operation(op, modes, seeds=(0, 1, 2), n=150):
+    chk = core.Check("C02", "quick", 0)
+    stats = {"operations": 0, "cases": 0, "negative_invalid": 0, "negative_but_valid": 0, "positive_but_invalid": 0}
+    for s in seeds:
+        for case in run_guard_operation(op, modes, s, n):
+            oracle_guard_case(chk, op, modes, case, stats)
+    fails = [f for f in chk.failures if f.get("region") is None]
+    return f"FAILS ({len(fails)} of {stats['cases']} cases): " + "; ".join(sorted({str(f['detail'])[:100] for f in fails}))[:400] if fails else f"passes ({stats['cases']} cases)"
+
+
+# ----------------------------------------------------------------------------------------
 def run(chk: core.Check):
     quick = chk.tier == "quick"
     chk.trusted = [
         "Coq 8.16.1 kernel, vm_compute (witness lemmas and model evaluation); no axioms",
         "hand-written model theories/C02/Model_C02.v (label algebra of openapi_cases, three schema mutations on a Draft-4 fragment, "
-        "validity of the fragment, string coercion of scalars, the query on the wire: jsonify, empty-dict rewriting, the requests / urlencode loop incl. containers, the guard is_non_empty_query)",
+        "validity of the fragment, the keyword dispatch of the guard validator on numeric schemas with boolean exclusive bounds (Draft 4 and the later-draft sentinel), string coercion of scalars, the query on the wire: jsonify, empty-dict rewriting, the requests / urlencode loop incl. containers, the guard is_non_empty_query)",
         "correspondence harness harness/props/c02.py (shape generator, wrappers around get_parameters_strategy/_get_body_strategy/reject, "
         "scripted draw stub, encoders, the Coq output parser)",
         "python-jsonschema Draft4Validator as the reference for validity (also used by the implementation filter); the harness own format checks for date and ipv4; "
@@ -1935,7 +2267,12 @@ def run(chk: core.Check):
         "(None, booleans, integers up to 66 bits, digit / word-like / reserved-character / non-ASCII strings) and containers (lists of None, nested empty lists, None mixed with values, dicts with None / "
         "empty / nested values, random nesting to depth 2); non-trivial = a container value.  Oracle E: 5 query-only operations with all parameters optional (integer; integer + boolean; boolean; integer array + integer; "
         "bounded integer + string enum), modes [Neg] and [Pos,Neg], natural Hypothesis draws plus draws where from_schema also offers lists of None / empty / nested-empty values that are valid for the mutated schema; "
-        "each case is sent with case.call to a loopback server and the raw query string it received is decoded and judged.  Distinct by canonical JSON"
+        "each case is sent with case.call to a loopback server and the raw query string it received is decoded and judged.  "
+        "F: numeric schemas in the Draft 4 / OpenAPI 2.0-3.0 form: every combination of minimum / maximum present or not x exclusiveMinimum / exclusiveMaximum absent / true / false (a flag also without its bound), "
+        "type number / integer / none / list, bounds around 0 and 1, keys in random order; values around each bound, around 0 / 1, non-numbers, floats (implementation side only); the real get_validator and the filter "
+        "closure of negative_schema (body, and the query location schema) against Model_C02.guard_is_valid / location_guard_keeps Draft4, an independent Draft4Validator against declared_valid; non-trivial = Draft 4 and the "
+        "later-draft reading differ.  Oracle F: 9 operations (body number, object body with a numeric property, required / optional query parameter, body + query, Swagger 2.0 body / query) with well-formed boolean exclusive bounds, "
+        "modes [Neg] and [Pos,Neg]: every labelled part of every real negative draw against an independent Draft4Validator built from the document.  Distinct by canonical JSON"
     )
     chk.proofs(["Common", "C02"])
     boost = 10 if chk.broken else 1
@@ -1943,13 +2280,21 @@ def run(chk: core.Check):
     chk.stages["coercion"] = stage_coercion(chk, 200 if quick else 3000)
     chk.stages["header_class"] = stage_header_class(chk, 400 if quick else 4000)
     chk.stages["query_wire"] = stage_query_wire(chk, 500 if quick else 5000)
+    chk.stages["guard_validator"] = stage_guard_validator(chk, 2 if quick else 25)
     boost = 10 if chk.broken else 1
+    def guard_tie(b):
+        return any(t in str(b.get("what", "")) for t in ("guard_is_valid", "guard_keeps", "declared_valid", "num_fragment"))
+
+    guard_broken = any(guard_tie(b) for b in chk.broken)
+    chk.stages["guard_draws"] = stage_guard_draws(chk, (9 if quick else 40) * (2 if guard_broken else 1), (40 if quick else 150) * (2 if guard_broken else 1))
+    if guard_broken and chk.stages["guard_draws"]["negative_but_valid"] and all(guard_tie(b) for b in chk.broken):
+        boost = 1  # only the guard tie is broken and concrete end-to-end failing inputs are in hand: no tenfold search in the other stages
     chk.stages["query_on_wire"] = stage_query_on_wire(chk, (160 if quick else 1200) * (3 if boost > 1 else 1), (25 if quick else 200) * (3 if boost > 1 else 1))
     chk.stages["labels"] = stage_labels(chk, (125 if quick else 850) * boost, 6 if quick else 10)
     for f in chk.findings:
         chk.known(f, witness_fails(f["witness"]))
     # end-to-end failing inputs (what the loopback server received) are listed before function-level ones
-    chk.failures.sort(key=lambda f: 0 if isinstance(f.get("input"), dict) and "wire_op" in f["input"] else 1)
+    chk.failures.sort(key=lambda f: 0 if isinstance(f.get("input"), dict) and ("wire_op" in f["input"] or "guard_op" in f["input"]) else 1)
 
 
 # ----------------------------------------------------------------------------------------
@@ -2153,6 +2498,25 @@ def replay(payload) -> int:
                 seen.add(key)
                 print("query-only operation", json.dumps(inp["wire_op"]), inp["modes"])
                 print("  ->", replay_wire_operation([tuple(x) for x in inp["wire_op"]], inp["modes"]))
+            continue
+        if isinstance(inp, dict) and "guard_op" in inp:
+            key = json.dumps([inp["guard_op"], inp["modes"]], sort_keys=True)
+            if key not in seen:
+                seen.add(key)
+                print("operation with boolean exclusive bounds", json.dumps(inp["guard_op"]), inp["modes"])
+                print("  ->", replay_guard_operation(inp["guard_op"], inp["modes"]))
+            continue
+        if isinstance(inp, dict) and "guard_schema" in inp:
+            import jsonschema
+
+            from schemathesis.specs.openapi.negative import CacheKey, get_validator
+
+            sch, v = inp["guard_schema"], inp["value"]
+            kept = not get_validator(CacheKey("verif-replay-" + json.dumps(sch, sort_keys=True), "body", sch)).is_valid(v)
+            ok = jsonschema.Draft4Validator(sch).is_valid(v)
+            print("guard", json.dumps(sch), "value", json.dumps(v), "-> kept", kept, "valid for the declared schema", ok, "->", "FAILS" if kept and ok else "passes")
+            continue
+        if isinstance(inp, dict) and "guard_location_schema" in inp:
             continue
         if isinstance(inp, dict) and "declared" in inp and "query" in inp:
             from schemathesis.specs.openapi._hypothesis import jsonify_python_specific_types
